@@ -5,19 +5,22 @@ from check import Part, build_harness, run_impl, V
 ID = "C18"
 DESIGN_REF = "DESIGN.md section 6.18"
 LEVEL_TEXT = ("PARTIAL. Proved (Rocq): AccumulateChanges' result is independent of the map iteration order and of the sorting "
-              "algorithm; a list has at most one sorted permutation under a total antisymmetric comparator. Tied to the code by an "
-              "ordered differential check of AccumulateChanges/DiffValidators, an AST inventory of nondeterminism sources, and "
+              "algorithm; a list has at most one sorted permutation under a total antisymmetric comparator; the updates returned by the "
+              "standalone->consumer changeover hand the consensus set over to exactly the provider's initial set, for every standalone set. Tied to the code by an "
+              "ordered differential check of AccumulateChanges/DiffValidators and of the real consumer EndBlock in the PreCCV state, an AST inventory of nondeterminism sources, and "
               "replica runs (supporting runs, not proofs): a multi-consumer history on 2-3 independent replicas with raw store, "
               "validator-update order, packet bytes and events compared bit for bit, plus every other property's driver executed twice.")
 LEVEL_NOTE = ("the model cannot exhibit divergence between real nodes (Go runtime, scheduler, memory layout): that half is exercised, "
               "not proved; map-range detection in the lint is syntactic (identifiers bound to make(map)/map literals/map-typed params)")
 RULE = ("fn: random current/new update lists over a 24-key pool with power ties, duplicates and removals, compared IN ORDER; "
-        "replica: random multi-consumer histories (8-20 validators with power ties, 2-4 consumers with different power shaping, "
+        "changeover: provider initial sets vs standalone bonded sets with overlapping keys, ties, MaxValidators truncation (non-trivial = "
+        ">= 1 removal and >= 1 shared key); replica: random multi-consumer histories (8-20 validators with power ties, 2-4 consumers with different power shaping, "
         "staking churn, opt-in/out, key assignment, rewards, slash packets, relays) on R replicas; lint: AST inventory. "
         "non-trivial fn case = merged list has a power tie or an overriding key; non-trivial replica case = >= 1 VSC packet relayed")
 ASSUMPTIONS = ["replicas run in one process on fresh keepers/stores (Go randomises map iteration per range statement)",
                "the fake World is deterministic by construction (sorted iteration everywhere)"]
-TRUSTED_BASE = ["modelled: AccumulateChanges (x/ccv/types/utils.go), DiffValidators (x/ccv/provider/keeper/validator_set_update.go); "
+TRUSTED_BASE = ["modelled: AccumulateChanges (x/ccv/types/utils.go), DiffValidators (x/ccv/provider/keeper/validator_set_update.go), ChangeoverToConsumer / ChangeoverIsComplete "
+                "(x/ccv/consumer/keeper/changeover.go) with the standalone staking module's bonded list as an oracle; "
                 "everything else in C18 is runtime verification"]
 
 # Nondeterminism-relevant sites expected in /repo/x/ccv (non-test, non-generated, excluding cli/simulation/migrations).
